@@ -158,6 +158,51 @@ example : let w0 := (newInst Registry.envLinux cur World.init .only [(10, 1), (1
     (addSignal Registry.envLinux cur (addSignal Registry.envLinux cur w0 9 3).1 14 4).2 = .ok ∧
     actionsOf (dropInst cur w0).1.reg 10 = [] := by decide
 
+/-! ## Round sixteen: the instance survives every history of additions -/
+
+/-- one `add_signal` on a live instance: the instance is still there, watches at least what it watched (same ids, same
+exfiltrator), and the call did not abort -/
+theorem addSignal_survives (env : Env) (w : World) (i : Inst) (n : Int) (tag : Nat) (hi : w.inst = some i) :
+    ∃ i', (addSignal env cur w n tag).1.inst = some i' ∧ i.ids <:+ i'.ids ∧ i'.exf = i.exf ∧
+      (addSignal env cur w n tag).2 ≠ .abort := by
+  simp only [addSignal, hi, cur]
+  simp only [Bool.not_true, Bool.and_false, Bool.false_eq_true, if_false, and_false]
+  split
+  · exact ⟨_, rfl, List.suffix_refl _, rfl, by simp⟩
+  · split
+    · exact ⟨_, hi, List.suffix_refl _, rfl, by simp⟩
+    · split
+      · exact ⟨_, rfl, List.suffix_cons _ _, rfl, by simp⟩
+      · exact ⟨_, rfl, List.suffix_refl _, rfl, by simp⟩
+      · exact ⟨_, rfl, List.suffix_refl _, rfl, by simp⟩
+
+/-- a history of `add_signal` calls -/
+def runAdds (env : Env) : World → List (Int × Nat) → World × List Res
+  | w, [] => (w, [])
+  | w, (n, tag) :: rest =>
+    let r := addSignal env cur w n tag
+    let t := runAdds env r.1 rest
+    (t.1, r.2 :: t.2)
+
+/-- **C12.history_survives** — for every live instance and every history of additions (valid, forbidden, out of range,
+rejected by the OS, repeated, in any order and number): the instance is still there at the end, still watches everything
+it watched under the same ids, and no call aborted the process. -/
+theorem C12_history_survives (env : Env) (adds : List (Int × Nat)) (w : World) (i : Inst) (hi : w.inst = some i) :
+    ∃ i', (runAdds env w adds).1.inst = some i' ∧ i.ids <:+ i'.ids ∧ i'.exf = i.exf ∧
+      ∀ r ∈ (runAdds env w adds).2, r ≠ .abort := by
+  induction adds generalizing w i with
+  | nil => exact ⟨i, hi, List.suffix_refl _, rfl, by simp [runAdds]⟩
+  | cons a adds ih =>
+    obtain ⟨n, tag⟩ := a
+    obtain ⟨i1, h1, hs1, he1, hr1⟩ := addSignal_survives env w i n tag hi
+    obtain ⟨i2, h2, hs2, he2, hr2⟩ := ih (addSignal env cur w n tag).1 i1 h1
+    refine ⟨i2, by simpa [runAdds] using h2, hs1.trans hs2, he2.trans he1, ?_⟩
+    intro r hr
+    simp only [runAdds, List.mem_cons] at hr
+    rcases hr with rfl | hr
+    · exact hr1
+    · exact hr2 r hr
+
 /-- **C12.add_signal_skeleton** — tie to the source (regenerated): `Handle::add_signal` takes the ids lock
 (tolerating poison), returns at once for a signal it already watches, registers, and records the id - all
 under the one lock, which is not dropped in between. -/
